@@ -44,12 +44,29 @@ def run(ctx):
     filler = ["w%05d" % i for i in range(4300 if quick else 9000)]
     special.append(["Polish"] + filler + ["polish"])
     special.append(["polish", "zebra"] + filler + ["Polish", "zebra", "Zebra"])
+    # a word repeated as often as a narrow counter can count (255/256/257/512; thorough 65536), next to its capitalised twin
+    for k in (255, 256, 257, 512) + (() if quick else (65535, 65536, 65537)):
+        special.append(["polish"] * k + ["Polish", "one"])
+        special.append(["Polish"] * k + ["one", "polish"])
+    # sorted input (byte order) of more than 256 entries that still contains repeats and twins
+    srt = sorted(["w%05d" % i for i in range(300)] + ["w00007", "w00007", "w00150", "Zebra", "zebra", "Zebra", "W00299", "w00299"])
+    special.append(srt)
+    special.append(sorted(set(srt)))
+    # many lower-case/capitalised pairs at once (a removal that disturbs the bookkeeping of another pair)
+    pairs = [w for i in range(40 if quick else 200) for w in ("p%03dx" % i, "P%03dx" % i)] + ["q%03d" % i for i in range(30)]
+    special.append(pairs)
+    special.append(pairs[::-1])
     for ws in special:
         wl = dict(words=[wlfam.o(w) for w in ws], nolist=0, len=2, cap="none", sep="char", sepChar=wlfam.o("-"))
-        scen.append(dict(kind="wl", wl=wl, maxTrials=0, failRateOne=0, mode="paths", paths=0, maxLeaves=0, tag="ctor-special", reps=3 if len(ws) > 100 else 200))
+        scen.append(dict(kind="wl", wl=wl, maxTrials=0, failRateOne=0, mode="paths", paths=0, maxLeaves=0, tag="ctor-special", reps=(3 if len(ws) > 1000 else 40) if len(ws) > 100 else 200))
     scen.append(dict(kind="wl", wl=dict(words=[], nolist=0, len=2, cap="none", sep="char", sepChar=[]), maxTrials=0, failRateOne=0, mode="paths", paths=1,
                      maxLeaves=0, tag="empty-input", reps=0))
     files, cells, leaves = wlfam.run_scenarios(ctx, scen, "c10")
+    # the same constructions in a process whose standard error cannot be written (/dev/full): a list with duplicates is still a list
+    full = [s_ for s_ in scen if s_["tag"] == "ctor-reps"][:12]
+    full = [dict(s_, reps=20, tag="ctor-stderr-unwritable") for s_ in full]
+    ff, fc, fl = wlfam.run_scenarios(ctx, full, "c10-devfull", shards=1, stderr_path="/dev/full")
+    files, cells, leaves = files + ff, cells + fc, leaves + fl
     sf, sc_, sl = wlfam.run_sequences(ctx, wlfam.ctor_collision_sequences(), "c10")
     files, cells, leaves = files + sf, cells + sc_, leaves + sl
     verdicts, decided = wlfam.validate(ctx, files)
